@@ -291,6 +291,10 @@ class UnitBuild:
         run("R6", RW.r6_panics)
         if "slice_scrutinee" in cfg:
             run("R3", RW.r3_slice_patterns, cfg["slice_scrutinee"])
+        if cfg.get("let_chains"):
+            run("R13", RW.r13_let_chains)
+        if cfg.get("for_each_child"):
+            run("R4", RW.r4_for_each_child)
         run("R2", RW.r2_build)
         run("R10", RW.r10_guards)
         if "into_target" in cfg:
@@ -323,6 +327,33 @@ class UnitBuild:
                 if ls.decreases.strip():
                     txt += "        decreases\n" + _indent(ls.decreases, 12)
                 body = body[:bpos] + txt + "        " + body[bpos:]
+        # `broadcast use` is lexically scoped and loops are verified in isolation: repeat the prefix in every loop body
+        if spec.prefix.strip() and "broadcast use" in spec.prefix:
+            loops = loops_in(body)
+            for kw, kpos, bpos in sorted(loops, key=lambda l: -l[2]):
+                # bpos is the position of the loop body's `{` BEFORE contracts were injected; find the `{` again after them
+                pass
+            T = code_toks(lex(body))
+            opens = []
+            for kw, kpos, _ in loops_in(body):
+                # the loop body is the first `{` at depth 0 after the (possibly injected) invariant/decreases clauses:
+                # scan forward from the keyword for the `{` that is followed by the original body; clauses contain no braces
+                i = next(k for k, t in enumerate(T) if t.start == kpos)
+                depth = 0
+                j = i + 1
+                while j < len(T):
+                    x = T[j]
+                    if x.kind == "punct":
+                        if x.text in "([":
+                            depth += 1
+                        elif x.text in ")]":
+                            depth -= 1
+                        elif x.text == "{" and depth == 0:
+                            break
+                    j += 1
+                opens.append(T[j].end)
+            for pos in sorted(opens, reverse=True):
+                body = body[:pos] + "\n" + _indent(spec.prefix, 12) + body[pos:]
         for loop, rx, text in spec.injects:
             m = re.search(rx, body)
             if not m:
